@@ -661,6 +661,25 @@ func runC01(c *Ctx) {
 			if strings.Contains(g, "int > 1") && strings.Contains(g, "isStrict") {
 				multi = true
 			}
+			if strings.Contains(g, "int > 1") && !multi && e.node != nil {
+				// strict mode established by the flow (the relaxed case ended the iteration further up)
+				for _, sm := range fl.Find(func(x ast.Node) bool {
+					found := false
+					ast.Inspect(x, func(m ast.Node) bool {
+						if m == e.node {
+							found = true
+						}
+						return !found
+					})
+					return found
+				}) {
+					if fl.Dominated(sm.Site, sm.Inner, func(a Atom) bool {
+						return a.Truth && a.Tag == nil && strings.HasSuffix(exprStr(a.E), ".isStrict")
+					}) {
+						multi = true
+					}
+				}
+			}
 		}
 		c.Check(multi, "C01-R5", "Parse:multi-document files rejected in strict mode", parse.Decl.Pos(), "index > 1 && isStrict -> error", "a second YAML document is accepted in strict mode (Prometheus silently ignores it: rules in it are never loaded)")
 		decodeErr := false
